@@ -16,6 +16,8 @@ package processor
 //@   requires p != nil && p.guardianSets != nil && guardiansets.indexed(p.guardianSets) && p.deduplicator != nil && vaa.wfVAA(v)
 //@   ensures [queued-at-most-once] nsent(p.messageQueue) <= old(nsent(p.messageQueue)) + 1
 //@   ensures [not-seen-when-queue-failed] err != nil ==> ghostCount("cache.Set") == old(ghostCount("cache.Set"))
+//@   ensures [seen-only-if-queued] ghostCount("cache.Set") != old(ghostCount("cache.Set")) ==> nsent(p.messageQueue) == old(nsent(p.messageQueue)) + 1
+//@   ensures [success-means-queued-or-duplicate] err == nil && ghostCount("cache.Set") != old(ghostCount("cache.Set")) ==> lastsent(p.messageQueue) != nil
 //@   modifies *
 //@   nonblocking
 //@   replay-in github.com/alephium/wormhole-fork/explorer-backend/guardiansets explorer_guardiansets_range.go.tmpl
